@@ -115,11 +115,38 @@ def count_stabilizer_states():
         assert len(seen) == want, (n, len(seen))
 
 
+def overlap_oracle(n_cases):
+    """Pauli-algebra overlap of two stabilizer states against dense vectors (random Clifford words, n <= 5)"""
+    import random
+
+    rng = random.Random(11)
+    seen = set()
+    for _ in range(n_cases):
+        n = rng.randint(1, 5)
+        sims, vecs = [], []
+        for _k in range(2):
+            ps = rp.PauliSim(n)
+            v = sv.zero_state(n)
+            for _j in range(rng.randint(0, 12)):
+                if n >= 2 and rng.random() < 0.4:
+                    a, b = rng.sample(range(n), 2)
+                    ps.cnot(a, b); v = sv.cnot(v, n, a, b)
+                else:
+                    g = rng.choice(["H", "P", "X", "Z", "Y"]); q = rng.randrange(n)
+                    ps.gate1(g, q); v = sv.apply1(v, n, q, sv.GATES[g])
+            sims.append(ps); vecs.append(v)
+        f = rp.stabilizer_overlap2(sims[0].stab, sims[1].stab, n)
+        assert abs(f - sv.overlap2(vecs[0], vecs[1])) < 1e-9, (f, sv.overlap2(vecs[0], vecs[1]))
+        seen.add(round(f, 6))
+    assert 0.0 in seen and 1.0 in seen and len(seen) >= 4, seen
+
+
 def run(full=False):
     n = 0
     pauli_identities(); n += 1
     dense_vs_pauli(2000 if full else 150); n += 1
     density_layer(); n += 1
+    overlap_oracle(3000 if full else 300); n += 1
     if full:
         count_stabilizer_states(); n += 1
     try:
